@@ -11,10 +11,14 @@
 //!             polls it (a handler draining an always-ready channel) and returns Pending. The property and the model do
 //!             not distinguish such an inner call from an ordinary one.
 //!   dyn:    bit 0: 0 = timeout_duration(T), 1 = timeout_fn(i -> t_i); bit 1 = the time unit of the whole script
-//!           (timeouts, Advance amounts) is the microsecond instead of the millisecond
+//!           (timeouts, Advance amounts) is the microsecond instead of the millisecond; bit 2 = every call is made on a
+//!           service value of its own (layer.layer(inner)) that is DROPPED as soon as call() has returned the future
+//!           (no handle of that TimeLimiter survives the call; overrides the handle mode)
 //!   a timeout >= 10^15 units stands for Duration::MAX
 //!   op 1 Poll a | 2 Drop a | 3 Advance a (ms unit: one millisecond at a time; us unit: one step) |
-//!      4 Complete a b (0 ok, 1 err, 2 panic) | 5 Call a (build the future now) | 6 Advance a in ONE step
+//!      4 Complete a b (0 ok, 1 err, 2 panic) | 5 Call a (build the future now) | 6 Advance a in ONE step |
+//!      7 Ready a: pick the service value caller a's call will be made on and poll_ready it NOW (call() follows at the
+//!        caller's first op 1/2/5, without another poll_ready); no trace entry
 //! trace per event = [r, val, wake mask, inner-call states base 4]
 use std::future::Future;
 use std::pin::Pin;
@@ -67,52 +71,85 @@ impl Service<i128> for Inner {
     }
 }
 
-/// poll_ready (GatedInner is always ready) + call on one service value
-fn call_on<S>(c: &mut S, req: i128) -> Fut
+/// poll_ready on one service value (the gated inner service is always ready)
+fn ready_on<S>(c: &mut S)
 where
     S: Service<i128, Response = i128, Error = TimeLimiterError<i128>>,
-    S::Future: 'static,
 {
     let w = futures::task::noop_waker();
     let mut cx = std::task::Context::from_waker(&w);
     let _ = c.poll_ready(&mut cx);
-    Box::pin(c.call(req)) as Fut
 }
 
-/// the four ways a call reaches the service
-fn maker<S>(svc: S, mode: i128) -> Box<dyn FnMut(i128) -> Fut>
+/// the service value the call of one caller is (going to be) made on
+enum Slot<S> {
+    Own(S),
+    Shared(usize),
+}
+
+/// How a call reaches the service. `make(req, true)` = op 7: pick the service value for caller `req` and drive it
+/// to readiness now; `make(req, false)` = call() on that value (picked and polled ready at this instant if it was not
+/// before). `drop_after`: every call gets a service value of its own, built from the layer, and that value - the only
+/// handle of that TimeLimiter - is dropped as soon as call() has returned the future (ServiceExt::oneshot style).
+fn maker<S, F>(factory: F, mode: i128, drop_after: bool) -> Box<dyn FnMut(i128, bool) -> Option<Fut>>
 where
+    F: Fn() -> S + 'static,
     S: Service<i128, Response = i128, Error = TimeLimiterError<i128>> + Clone + 'static,
     S::Future: 'static,
 {
-    match mode {
-        1 => {
-            let mut svc = svc;
-            Box::new(move |req| call_on(&mut svc, req))
+    let mut handles: Vec<S> = if drop_after {
+        Vec::new()
+    } else if mode == 3 {
+        let a = factory();
+        let b = a.clone();
+        vec![a, b]
+    } else {
+        vec![factory()]
+    };
+    let mut k = 0usize;
+    let mut slots: std::collections::HashMap<i128, Slot<S>> = std::collections::HashMap::new();
+    Box::new(move |req, ready_only| {
+        if !slots.contains_key(&req) {
+            let slot = if drop_after {
+                let mut c = factory();
+                ready_on(&mut c);
+                Slot::Own(c)
+            } else {
+                match mode {
+                    1 => {
+                        ready_on(&mut handles[0]);
+                        Slot::Shared(0)
+                    }
+                    3 => {
+                        k += 1;
+                        let idx = (k + 1) % 2;
+                        ready_on(&mut handles[idx]);
+                        Slot::Shared(idx)
+                    }
+                    _ => {
+                        // 0: fresh clone of the pristine value; 2: clone of the value the previous call was made on
+                        let mut c = handles[0].clone();
+                        ready_on(&mut c);
+                        Slot::Own(c)
+                    }
+                }
+            };
+            slots.insert(req, slot);
         }
-        2 => {
-            let mut cur = svc;
-            Box::new(move |req| {
-                let mut c = cur.clone();
-                let f = call_on(&mut c, req);
-                cur = c;
+        if ready_only {
+            return None;
+        }
+        Some(match slots.remove(&req).unwrap() {
+            Slot::Shared(i) => Box::pin(handles[i].call(req)) as Fut,
+            Slot::Own(mut c) => {
+                let f = Box::pin(c.call(req)) as Fut;
+                if mode == 2 && !drop_after {
+                    handles[0] = c;
+                }
                 f
-            })
-        }
-        3 => {
-            let mut a = svc;
-            let mut b = a.clone();
-            let mut k = 0u32;
-            Box::new(move |req| {
-                k += 1;
-                if k % 2 == 1 { call_on(&mut a, req) } else { call_on(&mut b, req) }
-            })
-        }
-        _ => Box::new(move |req| {
-            let mut c = svc.clone();
-            call_on(&mut c, req)
-        }),
-    }
+            }
+        })
+    })
 }
 
 /// move both clocks by `d` in one step
@@ -131,6 +168,7 @@ fn run(s: &[i128]) -> Vec<i128> {
     let h1 = zn(s, 1).max(0);
     let dynamic = h1 % 2 != 0;
     let us = (h1 >> 1) & 1 != 0;
+    let drop_after = (h1 >> 2) & 1 != 0;
     let unit = move |v: u64| -> Duration { if us { Duration::from_micros(v) } else { Duration::from_millis(v) } };
     let dur = move |v: u64| -> Duration { if v >= 1_000_000_000_000_000 { Duration::MAX } else { unit(v) } };
     let n = zn(s, 2).max(0) as usize;
@@ -141,7 +179,7 @@ fn run(s: &[i128]) -> Vec<i128> {
         let gated = GatedInner::new();
         let sh = gated.0.clone();
         let inner = Inner { g: gated, mask: hungry_mask };
-        let mut make: Box<dyn FnMut(i128) -> Fut> = if dynamic {
+        let mut make: Box<dyn FnMut(i128, bool) -> Option<Fut>> = if dynamic {
             let per = per.clone();
             let f = move |req: &i128| dur(per[*req as usize]);
             let layer = if cancel_first {
@@ -149,14 +187,14 @@ fn run(s: &[i128]) -> Vec<i128> {
             } else {
                 TimeLimiterLayer::builder().timeout_fn(f).cancel_running_future(cancel).build()
             };
-            maker(layer.layer(inner), handle_mode)
+            maker(move || layer.layer(inner.clone()), handle_mode, drop_after)
         } else {
             let layer = if cancel_first {
                 TimeLimiterLayer::builder().cancel_running_future(cancel).timeout_duration(dur(fixed)).build()
             } else {
                 TimeLimiterLayer::builder().timeout_duration(dur(fixed)).cancel_running_future(cancel).build()
             };
-            maker(layer.layer(inner), handle_mode)
+            maker(move || layer.layer(inner.clone()), handle_mode, drop_after)
         };
         let mut callers: Vec<Option<Manual<Res>>> = (0..n).map(|_| None).collect();
         let mut started = vec![false; n];
@@ -173,7 +211,7 @@ fn run(s: &[i128]) -> Vec<i128> {
                 1 | 2 | 5 => {
                     let i = a as usize;
                     if callers[i].is_none() {
-                        callers[i] = Some(Manual::new(make(a)));
+                        callers[i] = Some(Manual::new(make(a, false).unwrap()));
                     }
                     let m = callers[i].as_mut().unwrap();
                     if op == 1 {
@@ -200,6 +238,13 @@ fn run(s: &[i128]) -> Vec<i128> {
                 }
                 3 if !us => advance_ms(a.max(0) as u64).await,
                 3 | 6 => jump(unit(a.clamp(0, 10_000_000_000_000) as u64)).await,
+                7 => {
+                    // poll_ready now, call() later: no trace entry (the model has no such event)
+                    if callers[a as usize].is_none() {
+                        make(a, true);
+                    }
+                    continue;
+                }
                 4 => {
                     sh.complete(a, 0, match b { 0 => Outcome::Ok(a), 1 => Outcome::Err(a), _ => Outcome::Panic });
                 }
